@@ -12,6 +12,12 @@ FINDINGS = [
          "(R-argparse-zero-default, R-argparse-none-default, R-none-default-wraps-optional), seen through sync",
          site="cdd/argparse_function/utils/emit_utils.py:parse_out_param, cdd/shared/ast_utils.py:param2argparse_param, cdd/function/parse.py",
          example="truth class with alpha: float (no default): after sync the argparse target parses back with default 0.0"),
+    dict(id="C12-numpydoc-method-target-descriptions-unreadable", property="C12",
+         pattern=dict(check="sync", clause="target_equivalent_to_truth", target="function", initial="equivalent_numpydoc", field="doc", observed="lost"),
+         what="[R-indented-numpydoc-unparsed] a method target whose (equivalent) docstring is in NumPy style - as doctrans leaves it - is left as it is by sync, and function.parse does not read an "
+              "indented NumPy docstring: the target's descriptions do not come back (the per-format finding of C02, seen through sync)",
+         site="cdd/function/parse.py:function / cdd/shared/docstring_parsers.py (NumPy scanner on indented text)",
+         example="truth class, method target rendered with docstring_format='numpydoc'"),
     dict(id="C12-argparse-truth-invents-zero-default", property="C12",
          pattern=dict(check="sync", clause="target_equivalent_to_truth", truth="argparse_function", field="default", expected="float", observed="None", typ_class="float"),
          what="same root cause with argparse as the truth: the truth's own parse already carries the invented 0.0, which the function target then shows as None",
